@@ -96,14 +96,15 @@ type HexInfo struct {
 
 // Ctx is a per-path term factory.
 type Ctx struct {
-	tab    map[string]*Term
-	nextID int
-	vars   []*Term
-	digit  map[*Term]DigitInfo
-	hexd   map[*Term]HexInfo
-	ufs    map[string]ufSig
-	True   *Term
-	False  *Term
+	tab       map[string]*Term
+	nextID    int
+	vars      []*Term
+	digit     map[*Term]DigitInfo
+	hexd      map[*Term]HexInfo
+	floatInfo map[*Term]*FloatText
+	ufs       map[string]ufSig
+	True      *Term
+	False     *Term
 }
 
 type ufSig struct {
@@ -112,7 +113,7 @@ type ufSig struct {
 }
 
 func NewCtx() *Ctx {
-	c := &Ctx{tab: map[string]*Term{}, digit: map[*Term]DigitInfo{}, hexd: map[*Term]HexInfo{}, ufs: map[string]ufSig{}}
+	c := &Ctx{tab: map[string]*Term{}, digit: map[*Term]DigitInfo{}, hexd: map[*Term]HexInfo{}, floatInfo: map[*Term]*FloatText{}, ufs: map[string]ufSig{}}
 	c.True = c.mk(&Term{op: OConst, w: 0, c: 1})
 	c.False = c.mk(&Term{op: OConst, w: 0, c: 0})
 	return c
